@@ -415,6 +415,8 @@ def run(ctx):
                     p = cmp_parts(tt.stmt)
                     if p and p[1] == 'In' and lab == 'T' and isinstance(p[2], ast.Call) and isinstance(p[2].func, ast.Attribute) and p[2].func.attr == 'keys' and is_self_attr(p[2].func.value):
                         tabname = p[2].func.value.attr
+                    elif p and p[1] == 'In' and lab == 'T' and is_self_attr(p[2]):
+                        tabname = p[2].attr                 # `key in self._table` is `key in self._table.keys()`
                 want_tab = '_hash_algorithms' if cn == 'hmac.HMAC' else '_symmetric_key_algorithms'
                 if tabname != want_tab or not (c.args and (U(c.args[0]) == 'key' or 'key' in U(c.args[0]))):
                     okm = False
